@@ -336,11 +336,11 @@ func (e *Encoder) EncodePackedFloat64(tag int, vs []float64) {
 
 // EncodeNested writes a nested message to the buffer preceded by the varint-encoded tag key.
 func (e *Encoder) EncodeNested(tag int, m interface{}) error {
-	sz := Size(m)
-	e.offset += EncodeTag(e.p[e.offset:], tag, WireTypeLengthDelimited)
-	e.offset += EncodeVarint(e.p[e.offset:], uint64(sz))
 	switch tv := m.(type) {
 	case MarshalerTo:
+		sz := Size(m)
+		e.offset += EncodeTag(e.p[e.offset:], tag, WireTypeLengthDelimited)
+		e.offset += EncodeVarint(e.p[e.offset:], uint64(sz))
 		if err := tv.MarshalTo(e.p[e.offset:]); err != nil {
 			return err
 		}
@@ -351,16 +351,15 @@ func (e *Encoder) EncodeNested(tag int, m interface{}) error {
 		if err != nil {
 			return err
 		}
-		copy(e.p[e.offset:], buf)
-		e.offset += sz
+		// the length prefix and the cursor must reflect the bytes actually produced
+		e.EncodeBytes(tag, buf)
 		return nil
 	default:
 		buf, err := Marshal(tv)
 		if err != nil {
 			return err
 		}
-		copy(e.p[e.offset:], buf)
-		e.offset += sz
+		e.EncodeBytes(tag, buf)
 		return nil
 	}
 }
